@@ -805,8 +805,8 @@ func macros(tier string) []macro {
 			for _, pre := range contexts {
 				for _, suf := range contexts {
 					pre, suf := pre, suf
-					if tier != "thorough" && n == 7999 && (pre != "" || suf != "") {
-						continue
+					if tier != "thorough" && (pre != "" || suf != "") && (n == 7999 || (pre != "" && suf != "")) {
+						continue // quick: context on one side only, and none for 7999
 					}
 					ms = append(ms, macro{fmt.Sprintf("%s·%c^%d·%s", pre, k, n, suf), func() []el {
 						return concat(ctx(pre, 100000), run(k, 0, n), ctx(suf, 200000))
@@ -1038,7 +1038,7 @@ func main() {
 				}
 				bound = fmt.Sprintf("S: all sequences of length 0..4 over %d symbols (%d elements + F); L: all sequences of length 5..6 over %d symbols %s; ", len(all), len(all)-1, len(pruned), describe(pruned))
 			} else {
-				pruned := pick(all, "N1", "W1", "R1", "F", "N3", "W2", "R2", "N4", "R3", "N0")
+				pruned := pick(all, "N1", "W1", "R1", "F", "N3", "W2", "R2", "N4")
 				secs = []*section{
 					{alpha: alphabet, minLen: 0, maxLen: 3},
 					{alpha: pruned, minLen: 4, maxLen: 4},
